@@ -303,24 +303,34 @@ class PythonTranslator(ASTTranslator):
         node.priority = 1
         return node.id
     def postJoinedStr(self, node):
-        result = []
-        for item in node.values:
-            if isinstance(item, ast.Constant):
-                assert isinstance(item.value, str)
-                result.append(item.value)
-            elif not PY38 and isinstance(item, ast.Str):  # Python 3.7
-                result.append(item.s)
-            elif isinstance(item, ast.FormattedValue):
-                if item.conversion == -1:
-                    src = '{%s}' % item.value.src
-                else:
-                    src = '{%s!%s}' % (item.value.src, chr(item.conversion))
-                result.append(src)
-            else:
-                assert False
-        return "f%r" % ''.join(result)
+        return "f%r" % joinedstr_body(node)
     def postFormattedValue(self, node):
-        return node.value.src
+        return "f%r" % formattedvalue_src(node)  # a one-field f-string may arrive without its JoinedStr
+
+
+def formattedvalue_src(item):
+    src = '{' + item.value.src
+    if item.conversion != -1:
+        src += '!' + chr(item.conversion)
+    if getattr(item, 'format_spec', None) is not None:
+        spec = item.format_spec
+        src += ':' + (joinedstr_body(spec) if isinstance(spec, ast.JoinedStr) else spec.value.replace('{', '{{').replace('}', '}}'))
+    return src + '}'
+
+
+def joinedstr_body(node):
+    result = []
+    for item in node.values:
+        if isinstance(item, ast.Constant):
+            assert isinstance(item.value, str)
+            result.append(item.value.replace('{', '{{').replace('}', '}}'))
+        elif not PY38 and isinstance(item, ast.Str):  # Python 3.7
+            result.append(item.s.replace('{', '{{').replace('}', '}}'))
+        elif isinstance(item, ast.FormattedValue):
+            result.append(formattedvalue_src(item))
+        else:
+            assert False
+    return ''.join(result)
 
 
 nonexternalizable_types = (ast.keyword, ast.Starred, ast.Slice, ast.List, ast.Tuple)
